@@ -263,7 +263,7 @@ CallFunc(P, fname, args, st) ==
   LET f == P.funcs[CHOOSE i \in 1..Len(P.funcs) : P.funcs[i].name = fname]
       typed == \A i \in 1..Len(f.params) : TypeOK(f.params[i].ty, args[i])
       frame == [i \in 1..Len(f.params) |-> [name |-> f.params[i].name, ty |-> f.params[i].ty, v |-> args[i]]]
-      frame2 == SelectSeq(frame, LAMBDA b : b.v.k # "absent")
+      frame2 == frame        \* a parameter is a local of the function whatever it is bound to, an absent argument included
       inner == [st EXCEPT !.fr = << frame2 >>, !.fuel = @ - 1, !.ctl = "go", !.ret = Absent]
       done == ExecBlock(P, f.body, Push(inner))
       back == [done EXCEPT !.fr = st.fr, !.fuel = st.fuel, !.ctl = IF done.ctl = "fatal" THEN "fatal" ELSE "go", !.ret = Absent]
@@ -278,7 +278,7 @@ CallLambda(P, fv, args, st) ==
   IF st.fuel = 0 \/ st.ctl = "fatal" THEN R(Err, Fatal(st))
   ELSE LET node == fv.m[1]
            frame == [i \in 1..Len(node.params) |-> [name |-> node.params[i], ty |-> "var", v |-> args[i]]]
-           frame2 == SelectSeq(frame, LAMBDA b : b.v.k # "absent")
+           frame2 == frame        \* a parameter is a local of the function whatever it is bound to, an absent argument included
            inner == [st EXCEPT !.fr = Append(@, frame2), !.fuel = @ - 1, !.ret = Absent]
            done == ExecBlock(P, node.body, Push(inner))
            back == [done EXCEPT !.fr = st.fr, !.fuel = st.fuel, !.ctl = IF done.ctl = "fatal" THEN "fatal" ELSE "go", !.ret = Absent]
@@ -404,8 +404,10 @@ Exec(P, s, st) ==
                  IF cur.k = "arr" /\ ix.vs[1].k = "int" /\ ArrIdx(Len(cur.m), ix.vs[1].n) # 0
                  THEN AssignLocal(ix.st, s.lhs.name, A([j \in 1..(Len(cur.m) - 1) |-> IF j < ArrIdx(Len(cur.m), ix.vs[1].n) THEN cur.m[j] ELSE cur.m[j + 1]]))
                  ELSE IF cur.k = "map" THEN AssignLocal(ix.st, s.lhs.name, M(MapDel(cur.m, ix.vs[1]))) ELSE ix.st
+            \* "unset: clears ... a local variable": the variable is absent afterwards.  It stays the variable of its scope
+            \* (declared "in the current curly-braced scope"), so an outer variable of the same name does not show through.
             [] s.lhs.t = "local" /\ s.lhs.path = <<>> ->
-                 LET d == Where(st.fr, s.lhs.name) IN IF d = 0 THEN st ELSE [st EXCEPT !.fr[d] = SelectSeq(@, LAMBDA b : b.name # s.lhs.name)]
+                 LET d == Where(st.fr, s.lhs.name) IN IF d = 0 THEN st ELSE [st EXCEPT !.fr[d] = SetIn(@, s.lhs.name, Absent)]
             [] OTHER -> st)
     [] s.t = "print"  -> LET x == Eval(P, s.e, st) IN IF x.st.ctl = "fatal" THEN x.st ELSE [x.st EXCEPT !.out = Append(@, <<"p", Str(x.v)>>)]
     [] s.t = "if" ->
